@@ -162,6 +162,63 @@ json.dump(out, sys.stdout)
     if n_text_acc:
         rep.finding_or_violation('C05:text-accepted', '%d of %d element classes whose type permits no character content accept text (e.g. %s(\'hello\'))' % (n_text_acc, len(texts), texts[0][0]),
                                  {'classes': [t[0] for t in texts if t[1] == 'accepted'][:20]})
+    # None as the element's value: an element whose type has character content must either refuse it (construction, assignment or serialisation) or
+    # serialise text that is valid for that type - the empty text it would emit is judged by the extracted xsd_valid
+    code2 = r"""
+import sys, io, json, contextlib, warnings
+warnings.simplefilter('ignore')
+with contextlib.redirect_stdout(io.StringIO()):
+    from musicxml.xmlelement import xmlelement as XE
+    from musicxml.xsd import xsdsimpletype as ST
+sys.path.insert(0, '@CORR@')
+import impl_runner as R
+R.init()
+import xml.etree.ElementTree as ET
+out = []
+for n in XE.__all__:
+    c = getattr(XE, n)
+    if not (isinstance(c, type) and issubclass(c, XE.XMLElement)) or c is XE.XMLElement:
+        continue
+    try:
+        T = c.TYPE
+        sc = T if (isinstance(T, type) and issubclass(T, ST.XSDSimpleType)) else getattr(T, '_SIMPLE_CONTENT', None)
+    except Exception:
+        continue
+    if sc is None:
+        continue
+    for how in ('ctor', 'assign'):
+        try:
+            if how == 'ctor':
+                e = c(None, xsd_check=True)
+            else:
+                R.make(c.XSD_TREE.name); v0 = R._cache.get(c.XSD_TREE.name)
+                e = c(v0); e.value_ = None
+            try:
+                with contextlib.redirect_stdout(io.StringIO()):
+                    s = e.to_string()
+                out.append([n, sc.__name__, how, 'emitted', ET.fromstring(s).text or ''])
+            except Exception as ex:
+                out.append([n, sc.__name__, how, 'to_string:' + type(ex).__name__, None])
+        except Exception as ex:
+            out.append([n, sc.__name__, how, 'refused:' + type(ex).__name__, None])
+json.dump(out, sys.stdout)
+"""
+    r2 = subprocess.run([C.PY, '-W', 'ignore', '-c', code2.replace('@CORR@', os.path.join(C.VERIF, 'corr'))], capture_output=True, text=True, env=C.impl_env(), timeout=600)
+    if r2.returncode != 0:
+        raise RuntimeError('C05 None sweep failed: ' + r2.stderr[-1500:])
+    nones = json.loads(r2.stdout)
+    em = [x for x in nones if x[3] == 'emitted' and x[1] in xsd_of]
+    m2 = extract.Model()
+    try:
+        okv = m2.raw(['xv %s %s' % (xsd_of[x[1]], ','.join(str(ord(ch)) for ch in x[4])) for x in em]) if em else []
+    finally:
+        m2.close()
+    for x, ok in zip(em, okv):
+        if ok != '1':
+            rep.finding_or_violation('C05:none-value:%s' % x[0], '%s: the value None is accepted (%s) and serialised as %r, which is not valid for %s' % (x[0], x[2], x[4], xsd_of[x[1]]),
+                                     {'class': x[0], 'how': x[2], 'emitted_text': x[4], 'type': xsd_of[x[1]]})
+    rep.coverage['none_values_offered'] = len(nones)
+    rep.coverage['none_values_emitted'] = len(em)
     kinds = {}
     for c, v in pairs:
         k2 = 'str' if v[:1] in '\'"' else ('bool' if v in ('True', 'False') else ('None' if v == 'None' else ('float' if ('.' in v or 'e' in v or 'float' in v) else 'int')))
